@@ -1,5 +1,5 @@
-(* Proofs/C07_pc.v — C07: STV with the Droop quota and the fractional transfer is proportional for
-   solid coalitions.  The invariant [pc_inv] (Spec/PCSpec.v) holds initially ([pc_inv_init]), is
+(* Proofs/C07_pc.v — C07: STV with the Droop quota and the fractional or random transfer is
+   proportional for solid coalitions.  The invariant [pc_inv] (Spec/PCSpec.v) holds initially ([pc_inv_init]), is
    kept by every round ([pc_step]: election of members / non-members with the coalition losing at
    most one quota per elected member, default election, elimination — a member is only eliminated
    when more members are standing than quotas are left), hence along the loop ([pc_loop]); at a
@@ -8,7 +8,7 @@
 From VK Require Import Base Core STV Rules EditSpec ScoreSpec STVSpec PCSpec.
 From VK.Proofs Require Import Lib_sets Lib_rk Lib_condense Lib_condense12 C12_edit C03_transfer
   C04_scoring Elect STV_lib STV_wsum STV_tb STV_step STV_round STV_threshold STV_weights STV_inv
-  STV_cases STV_final C07_lib.
+  STV_cases STV_final C07_lib C07_random.
 From Coq Require Import Permutation Lia Lqa Setoid Morphisms.
 
 Section WithCand.
@@ -241,15 +241,14 @@ Qed.
 
 Theorem pc_step : forall cfg t N (p0 p : profile) prev older (s s' : mstate) np st A k,
   stv_inv cfg t N p0 p (prev :: older) ->
-  s_transfer cfg = TFractional -> 0 <= t ->
+  s_transfer cfg <> TFullWeight -> (s_transfer cfg = TRandom -> script_ok s) ->
   pc_inv A k t p (prev :: older) ->
   stv_step cfg t p0 (count_elected (prev :: older)) p prev s = inl ((np, st), s') ->
   pc_inv A k t np (st :: prev :: older).
 Proof.
-  intros cfg t N p0 p prev older s s' np st A k Hinv Hk Ht [Ha Hb] Hstep.
-  destruct Hinv as [(prev' & older' & Eq & Hctx) _ _ _ _ _]. injection Eq as <- <-.
+  intros cfg t N p0 p prev older s s' np st A k Hinv Hk Hscr [Ha Hb] Hstep.
+  destruct Hinv as [(prev' & older' & Eq & Hctx) _ _ _ Ht Htint]. injection Eq as <- <-.
   pose proof (ctx_wf cand ceqb p0 p prev Hctx) as Hwf.
-  assert (Hscr : s_transfer cfg = TRandom -> script_ok s) by (rewrite Hk; discriminate).
   destruct (stv_step_summary cand ceqb ceqb_spec cfg t p0 p prev Hctx _ s s' np st Hscr Hstep)
     as (Hperm & _ & _ & _).
   set (T := standing A p) in *.
@@ -280,7 +279,13 @@ Proof.
       assert (HTne : T <> []) by (intros E; apply Hne'; rewrite E; reflexivity).
       assert (Hlt : (e < k)%nat) by lia.
       specialize (Hb HTne Hlt).
-      pose proof (elect_coal_bound cfg t p0 p prev st np s s' W others mvs s1 Hctx Hr Hk Ht T Hne') as Hbd.
+      assert (Hbd : wsumr (phiA T) (ballots p) - Qnat (length (members T W)) * t
+                    <= wsumr (phiA (set_diff T W)) (ballots np)).
+      { destruct (s_transfer cfg) eqn:Ek.
+        - apply (elect_coal_bound cfg t p0 p prev st np s s' W others mvs s1 Hctx Hr Ek Ht T Hne').
+        - apply (elect_coal_bound_rand cand ceqb ceqb_spec cfg t p0 p prev st np s s' W others mvs s1
+                   Hctx Hr Ek (Hscr eq_refl) Htint Ht T Hne').
+        - contradiction Hk; reflexivity. }
       assert (Em : members T W = members A W).
       { unfold PCSpec.members. apply Lib_rk.filter_ext_in. intros c Hc.
         pose proof (er_W_in cand ceqb cfg t p prev st np s s' W others mvs s1 Hr c Hc) as Hcp.
@@ -343,13 +348,14 @@ Qed.
 (* ====================== the invariant: the loop ====================== *)
 
 Theorem pc_loop : forall fuel cfg t N (p0 p : profile) sts (s s' : mstate) out A k,
-  stv_inv cfg t N p0 p sts -> s_transfer cfg = TFractional -> 0 <= t ->
+  stv_inv cfg t N p0 p sts ->
+  s_transfer cfg <> TFullWeight -> (s_transfer cfg = TRandom -> script_ok s) ->
   pc_inv A k t p sts ->
   stv_loop fuel cfg t p0 p sts s = inl (out, s') ->
   exists pf stsf, stv_inv cfg t N p0 pf stsf /\ pc_inv A k t pf stsf /\ out = rev stsf /\
     count_elected stsf = s_m cfg.
 Proof.
-  induction fuel as [|fuel IH]; intros cfg t N p0 p sts s s' out A k Hinv Hk Ht Hpc H;
+  induction fuel as [|fuel IH]; intros cfg t N p0 p sts s s' out A k Hinv Hk Hscr Hpc H;
     rewrite (stv_loop_unfold cand ceqb) in H.
   - destruct (Z.eqb (count_elected sts) (s_m cfg)) eqn:E; [|discriminate].
     injection H as <- <-. exists p, sts. split; [exact Hinv|]. split; [exact Hpc|].
@@ -360,23 +366,24 @@ Proof.
     + destruct sts as [|prev older]; [discriminate|].
       destruct (stv_step cfg t p0 (count_elected (prev :: older)) p prev s) as [[[np st] s1]|e] eqn:Es;
         [|discriminate].
-      assert (Hscr : s_transfer cfg = TRandom -> script_ok s) by (rewrite Hk; discriminate).
       destruct (stv_inv_step cand ceqb ceqb_spec cfg t N p0 p prev older s s1 np st Hinv Hscr Es)
-        as [Hinv' _].
-      pose proof (pc_step cfg t N p0 p prev older s s1 np st A k Hinv Hk Ht Hpc Es) as Hpc'.
-      apply (IH cfg t N p0 np (st :: prev :: older) s1 s' out A k Hinv' Hk Ht Hpc' H).
+        as [Hinv' Hsuf].
+      pose proof (pc_step cfg t N p0 p prev older s s1 np st A k Hinv Hk Hscr Hpc Es) as Hpc'.
+      assert (Hscr1 : s_transfer cfg = TRandom -> script_ok s1).
+      { intros E1. apply (script_ok_suffix cand s s1 Hsuf). apply Hscr. exact E1. }
+      apply (IH cfg t N p0 np (st :: prev :: older) s1 s' out A k Hinv' Hk Hscr1 Hpc' H).
 Qed.
 
 (* ====================== the invariant: exit ====================== *)
 
 (* all seats filled and the Droop inequality: the coalition has its min(k, |A|) seats *)
 Theorem pc_exit : forall cfg t N (p0 pf : profile) stsf A k,
-  stv_inv cfg t N p0 pf stsf -> s_transfer cfg = TFractional ->
+  stv_inv cfg t N p0 pf stsf -> s_transfer cfg <> TFullWeight ->
   count_elected stsf = s_m cfg -> N < inject_Z (s_m cfg + 1) * t -> 0 < t ->
   pc_inv A k t pf stsf ->
   (Nat.min k (length A) <= length (elected_of A stsf))%nat.
 Proof.
-  intros cfg t N p0 pf stsf A k Hinv Hk Hcount HN Ht [Ha Hb].
+  intros cfg t N p0 pf stsf A k Hinv Hk' Hcount HN Ht [Ha Hb].
   destruct (le_lt_dec (Nat.min k (length A)) (length (elected_of A stsf))) as [Hle|Hgt];
     [exact Hle|exfalso].
   assert (Hne : standing A pf <> []).
@@ -385,7 +392,6 @@ Proof.
   specialize (Hb Hne Hlt).
   destruct Hinv as [(prev & older & _ & Hctx) _ _ Hweight _ _].
   pose proof (ctx_wf cand ceqb p0 pf prev Hctx) as Hwf.
-  assert (Hk' : s_transfer cfg <> TFullWeight) by (rewrite Hk; discriminate).
   destruct (Hweight Hk') as [[Ecs _]|Hw].
   { apply Hne. unfold PCSpec.standing. rewrite Ecs. reflexivity. }
   rewrite Hcount in Hw.
@@ -408,7 +414,8 @@ Proof.
 Qed.
 
 Theorem droop_pc : forall cfg (p : profile) (A : cset) (k : nat) t (s s' : mstate) out,
-  wf_stv_profile p -> s_quota cfg = QDroop -> s_transfer cfg = TFractional ->
+  wf_stv_profile p -> s_quota cfg = QDroop ->
+  s_transfer cfg <> TFullWeight -> (s_transfer cfg = TRandom -> script_ok s) ->
   NoDup A -> incl A (cands p) ->
   stv_init cfg p = inl t ->
   Qnat k * t <= coal_wt A (ballots p) ->
@@ -416,7 +423,7 @@ Theorem droop_pc : forall cfg (p : profile) (A : cset) (k : nat) t (s s' : mstat
   (Nat.min k (Nat.min (length A) (Z.to_nat (s_m cfg)))
    <= winners_in A (flat (elected_upto out (length out - 1))))%nat.
 Proof.
-  intros cfg p A k t s s' out [Hwf _] Hq Hk HA Hincl Hinit Hcoal Hrun.
+  intros cfg p A k t s s' out [Hwf _] Hq Hk Hscr HA Hincl Hinit Hcoal Hrun.
   rewrite (run_stv_unfold cand ceqb) in Hrun. rewrite Hinit in Hrun.
   destruct (initial_state p) as [s0|e] eqn:E0; [|discriminate].
   pose proof (threshold_value cand cfg p t Hinit (total_wt_nonneg cand p Hwf)) as Hth.
@@ -424,7 +431,7 @@ Proof.
   assert (Ht : 0 < t) by lra.
   pose proof (stv_inv_init cand ceqb cfg p t s0 Hwf Hinit E0) as Hinv.
   pose proof (pc_inv_init A k t p s0 HA Hincl E0 Hcoal) as Hpc.
-  destruct (pc_loop _ cfg t _ p p [s0] s s' out A k Hinv Hk (Qlt_le_weak _ _ Ht) Hpc Hrun)
+  destruct (pc_loop _ cfg t _ p p [s0] s s' out A k Hinv Hk Hscr Hpc Hrun)
     as (pf & stsf & Hinvf & Hpcf & -> & Hcount).
   pose proof (pc_exit cfg t _ p pf stsf A k Hinvf Hk Hcount HN Ht Hpcf) as Hex.
   assert (HndE : NoDup (all_elected stsf)).
@@ -438,17 +445,27 @@ Proof.
     + eapply Permutation_in; [apply Permutation_sym, (all_elected_rev cand)|exact Hc].
 Qed.
 
+(* on the ballots of a valid profile the executable coalition test is the specification *)
+Lemma coalition_ballots : forall (p : profile) (A : cset) b, wf_stv_profile p -> NoDup A ->
+  In b (ballots p) -> (solidb A (rk b) = true <-> solid A (rk b)).
+Proof.
+  intros p A b [[_ Hwfb] _] HA Hb. rewrite Forall_forall in Hwfb.
+  destruct (Hwfb b Hb) as (_ & _ & Hnd & _).
+  apply (solidb_solid cand ceqb ceqb_spec); assumption.
+Qed.
+
 (* ====================== IRV majority ====================== *)
 
 (* a candidate ranked first on ballots worth at least the threshold wins the single seat *)
 Theorem irv_majority : forall cfg (p : profile) (c : cand) t (s s' : mstate) out,
-  wf_stv_profile p -> s_quota cfg = QDroop -> s_transfer cfg = TFractional -> s_m cfg = 1%Z ->
+  wf_stv_profile p -> s_quota cfg = QDroop ->
+  s_transfer cfg <> TFullWeight -> (s_transfer cfg = TRandom -> script_ok s) -> s_m cfg = 1%Z ->
   In c (cands p) -> stv_init cfg p = inl t ->
   t <= tally c (ballots p) ->
   run_stv cfg p s = inl (out, s') ->
   flat (elected_upto out (length out - 1)) = [c].
 Proof.
-  intros cfg p c t s s' out Hwfp Hq Hk Hm Hc Hinit Htally Hrun.
+  intros cfg p c t s s' out Hwfp Hq Hk Hscr Hm Hc Hinit Htally Hrun.
   assert (HA : NoDup [c]) by (constructor; [intros []|constructor]).
   assert (Hincl : incl [c] (cands p)) by (intros x [<-|[]]; exact Hc).
   assert (Hcoal : Qnat 1 * t <= coal_wt [c] (ballots p)).
@@ -456,7 +473,7 @@ Proof.
     unfold STVSpec.tally, PCSpec.coal_wt. apply wt_where_mono.
     - apply (wf_bs_nonneg cand p (proj1 Hwfp)).
     - intros b _ Hf. apply (first_is_solid cand ceqb ceqb_spec). exact Hf. }
-  pose proof (droop_pc cfg p [c] 1 t s s' out Hwfp Hq Hk HA Hincl Hinit Hcoal Hrun) as Hpc.
+  pose proof (droop_pc cfg p [c] 1 t s s' out Hwfp Hq Hk Hscr HA Hincl Hinit Hcoal Hrun) as Hpc.
   rewrite Hm in Hpc.
   assert (Hmin : Nat.min 1 (Nat.min (length [c]) (Z.to_nat 1)) = 1%nat) by reflexivity.
   rewrite Hmin in Hpc. clear Hmin.
@@ -465,7 +482,7 @@ Proof.
     [|cbn [length] in Hpc; lia].
   apply memb_In in Em.
   destruct (run_stv_count cand ceqb ceqb_spec cfg p s s' out (proj1 Hwfp)) as [Hcnt Hnd];
-    [rewrite Hk; discriminate|exact Hrun|].
+    [exact Hscr|exact Hrun|].
   rewrite (count_elected_all cand) in Hcnt. rewrite Hm in Hcnt.
   rewrite elected_upto_last in Em |- *.
   destruct (all_elected out) as [|a [|b l]]; cbn [length] in Hcnt; try lia.
